@@ -267,9 +267,17 @@ def dt_offset_roundtrip(offset_seconds: int) -> str:
     return r
 
 
-def dt_offsets(h: int, m: int, neg: bool) -> str:
-    off = (h * 60 + m) * 60
-    return dt_offset_roundtrip(-off if neg else off)
+def dt_offsets(h: int, neg: bool) -> str:
+    for i in range(24):          # the hour is the solver variable; minutes are swept concretely
+        if h == i:
+            for m in (0, 1, 29, 30, 45, 59):
+                off = (i * 60 + m) * 60
+                r = dt_offset_roundtrip(-off if neg else off)
+                if r != 'ok':
+                    return r
+            reach()
+            return 'ok'
+    return 'ok'
 
 
 def selftests():
@@ -279,19 +287,85 @@ def selftests():
 FIRST = [('ctl', 0, 0x20), ('sp-/', 0x20, 0x30), ('0-@', 0x30, 0x41), ('A-`', 0x41, 0x61), ('a-del', 0x61, 0x80), ('c1', 0x80, 0xa0),
          ('bmp', 0xa0, 0x2028), ('ls-bom', 0x2028, 0xff00), ('high', 0xff00, 0x110000)]
 
+# representatives of every character class the emitter / scanner distinguish
+ALPHA = ['a', '0', ' ', '\n', '\r', '\t', '\x85', '\u2028', '\ufeff', '\x01', '\xe9', '\U0001f600', ':', '#', '-', '?', ',', '[', '{',
+         '&', '*', '!', '|', '>', "'", '"', '%', '@', '`', '~', '\\', '=', '<', '.']
+
+
+def alpha(i0: int, i1: int, i2: int, n: int, ctx: int, style_i: int, flow_i: int, allow_unicode: bool, width: int) -> str:
+    """strings over the class-representative alphabet (each character chosen by a solver variable)"""
+    x = ''
+    ii = [i0, i1, i2]
+    for k in range(3):
+        if k < n:
+            x += pick(ii[k], ALPHA)
+    return scalar(x, ctx, style_i, flow_i, allow_unicode, width, False, 2, 0)
+
 
 def jobs(tier):
     q = tier == 'quick'
-    L = 2 if q else 3
     js = []
-    for ctx in range(8):
+    NA = len(ALPHA)
+    # (1) one free character over the whole code-point range, every context and style
+    for ctx in ((0, 3) if q else range(8)):
         for st in range(5):
-            for name, lo, hi in FIRST:
-                js.append(Job('scalar/ctx%d/style%d/%s' % (ctx, st, name), scalar,
-                              [lambda x, ctx, style_i, flow_i, allow_unicode, width, canonical, indent, break_i, _c=ctx, _s=st, _lo=lo, _hi=hi:
-                               ctx == _c and style_i == _s and 0 <= flow_i <= 2 and (width == 2 or width == 80) and not canonical and indent == 2 and
-                               break_i == 0 and len(x) <= L and (len(x) == 0 if _lo == 0 and False else True) and
-                               (len(x) >= 1 and _lo <= ord(x[0]) < _hi)],
-                              budget=240 if q else 1800,
-                              bounds='str len 1..%d starting in U+%04X..U+%04X, context %d, default_style %r, 3 flow styles, allow_unicode, width in {2,80}' % (L, lo, hi - 1, ctx, STYLES[st])))
+            for au in (False, True):
+                js.append(Job('char/ctx%d/style%d/%s' % (ctx, st, 'unicode' if au else 'ascii'), scalar,
+                              [lambda x, ctx, style_i, flow_i, allow_unicode, width, canonical, indent, break_i, _c=ctx, _s=st, _au=au:
+                               ctx == _c and style_i == _s and (flow_i == 0 if q else 0 <= flow_i <= 2) and width == 80 and not canonical and indent == 2 and
+                               break_i == 0 and len(x) <= 1 and allow_unicode == _au],
+                              budget=200 if q else 900,
+                              bounds='str of len<=1 over all code points, context %d, default_style %r, allow_unicode=%r' % (ctx, STYLES[st], au)))
+    # (2) option cells on one free character: canonical, line_break, indent, narrow width
+    for st in (0, 3):
+        js.append(Job('char-options/style%d' % st, scalar,
+                      [lambda x, ctx, style_i, flow_i, allow_unicode, width, canonical, indent, break_i, _s=st:
+                       ctx == 2 and style_i == _s and flow_i == 0 and (width == 2 or width == 80) and (indent == 1 or indent == 4 or indent == 12) and
+                       0 <= break_i <= 3 and allow_unicode and len(x) <= 1],
+                      budget=60 if q else 1200, exhaust=not q,
+                      bounds='str of len<=1, mapping value, style %r x canonical x width {2,80} x indent {1,4,12} x 4 line breaks' % (STYLES[st],)))
+    # (3) two / three characters over the class-representative alphabet
+    AN = 2 if q else 3
+    for a in range(NA):
+        js.append(Job('alpha/first=%r' % ALPHA[a], alpha,
+                      [lambda i0, i1, i2, n, ctx, style_i, flow_i, allow_unicode, width, _a=a:
+                       i0 == _a and 0 <= i1 < NA and 0 <= i2 < NA and n == AN and (ctx == 0 or ctx == 3) and
+                       0 <= style_i <= 4 and flow_i == 0 and width == 80],
+                      budget=200 if q else 1500, exhaust=q,
+                      bounds='strings of len %d over a %d-character class alphabet starting with %r, root and key contexts, allow_unicode both' % (AN, NA, ALPHA[a])))
+    # (4) two free characters over all code points (thorough only; bug hunting)
+    if not q:
+        for ctx in (0, 3):
+            for st in range(5):
+                for name, lo, hi in FIRST:
+                    js.append(Job('scalar2/ctx%d/style%d/%s' % (ctx, st, name), scalar,
+                                  [lambda x, ctx, style_i, flow_i, allow_unicode, width, canonical, indent, break_i, _c=ctx, _s=st, _lo=lo, _hi=hi:
+                                   ctx == _c and style_i == _s and flow_i == 0 and width == 80 and not canonical and indent == 2 and
+                                   break_i == 0 and len(x) == 2 and _lo <= ord(x[0]) < _hi],
+                                  budget=300, exhaust=False,
+                                  bounds='str of len 2 over all code points starting in U+%04X..U+%04X, context %d, style %r' % (lo, hi - 1, ctx, STYLES[st])))
+    # (5) folding and indentation depth
+    FN = 4 if q else 6
+    for st in range(5):
+        js.append(Job('fold/style%d' % st, fold,
+                      [lambda k0, k1, k2, k3, k4, k5, n, style_i, width, depth, indent, _s=st:
+                       style_i == _s and 1 <= n <= FN and 0 <= k0 <= 2 and 0 <= k1 <= 2 and 0 <= k2 <= 2 and 0 <= k3 <= 2 and 0 <= k4 <= 2 and
+                       0 <= k5 <= 2 and 1 <= width <= (3 if q else 6) and 0 <= depth <= (1 if q else 3) and (indent == 2 if q else 1 <= indent <= 4)],
+                      budget=200 if q else 1800, exhaust=q,
+                      bounds='text of len<=%d over {a, space, LF}, style %r, width 1..%d, nesting depth 0..%d' % (FN, STYLES[st], 3 if q else 6, 1 if q else 3)))
+    # (6) containers: sharing and recursion
+    NS = 2 if q else 3
+    js.append(Job('graph', graph, [lambda ns, k0, k1, k2, a0, a1, a2, b0, b1, b2, flow_i: ns == NS and 0 <= k0 <= 1 and 0 <= k1 <= 1 and 0 <= k2 <= 1 and
+                                   0 <= a0 <= NS and 0 <= a1 <= NS and 0 <= a2 <= NS and 0 <= b0 <= NS and 0 <= b1 <= NS and 0 <= b2 <= NS and 0 <= flow_i <= 2],
+                  budget=200 if q else 1800, bounds='list/dict graphs over %d slots with arbitrary child pointers, 3 flow styles' % NS))
+    # (7) bytes, ints, constants, UTC offsets
+    BL = 1 if q else 2
+    js.append(Job('binary', binary, [lambda b, ctx, flow_i: len(b) <= BL and 0 <= ctx <= 2 and flow_i == 0], budget=200 if q else 1500,
+                  bounds='bytes of len<=%d through !!binary (base64 models), 3 contexts' % BL))
+    js.append(Job('integer', integer, [lambda n, ctx, style_i: 0 <= n < 10 ** 6 and 0 <= ctx <= 2 and 0 <= style_i <= 4], budget=60 if q else 1500,
+                  exhaust=False, bounds='ints 0 <= n < 10^6, 3 contexts, 5 styles'))
+    js.append(Job('consts', consts, [lambda k, style_i, flow_i, canonical: 0 <= k < len(CONSTS) and 0 <= style_i <= 4 and 0 <= flow_i <= 2],
+                  budget=200, bounds='%d constants (None, bools, floats incl. inf/nan/-0.0, dates, datetimes, sets, empties) x 5 styles x 3 flow styles x canonical' % len(CONSTS)))
+    js.append(Job('utc-offsets', dt_offsets, [lambda h, neg: 0 <= h <= 23], budget=200,
+                  bounds='datetimes with UTC offsets of every hour x minutes {0,1,29,30,45,59}, both signs'))
     return js
